@@ -49,6 +49,12 @@ structure Holds (cfg : Cfg) : Prop where
     Params cfg bs → WritesOK cfg ops →
     readSwampName cfg codec.toDecoder crc
       (compactSt cfg codec crc bs now' (runOps cfg codec crc bs (legacyState codec crc hdr blocks) (ops ++ [.close]))).1.file = .ok nm
+  /-- over a whole directory of engine-written files (duplicates allowed) the index is exactly the set
+      of their three-part names, each once -/
+  listing : ∀ (codec : Codec) (crc : Checksum) (bs : Nat) (dir : List (Bytes × Bytes)),
+    (∀ p ∈ dir, p.2 ≠ [] ∧ ∃ now ops st, createFileCfg cfg p.2 now = some st ∧ p.1 = (runOps cfg codec crc bs st ops).file) →
+    (∀ n, n ∈ Hv.Storage.listing cfg codec.toDecoder crc (dir.map (·.1)) ↔ (n ∈ dir.map (·.2) ∧ splits3 n = true)) ∧
+    (Hv.Storage.listing cfg codec.toDecoder crc (dir.map (·.1))).Nodup
   /-- the explorer lists a file the engine wrote under exactly its name, iff the name has the
       three-part form; nothing else can appear for it -/
   listed : ∀ (codec : Codec) (crc : Checksum) (bs : Nat) (name : Bytes) (now : Nat) (st : St) (ops : List Op),
@@ -149,41 +155,6 @@ theorem compacted_v2 (cfg : Cfg) (codec : Codec) (crc : Checksum) (bs : Nat)
   have := (compaction_keeps_name cfg codec crc bs now' [] _ _ hI (by simp [hm]; exact hlen)).2
   simpa [hm] using this
 
-def Good (cfg : Cfg) : Prop :=
-  cfg.rejectsLongName = true ∧ cfg.v2Fallback = true
-
-theorem holds_of_good (cfg : Cfg) (hg : Good cfg) : Holds cfg := by
-  obtain ⟨h1, h2⟩ := hg
-  refine ⟨?_, ?_, ?_, ?_, ?_⟩
-  · intro codec crc bs name now st ops hc
-    obtain ⟨hst, hn⟩ := createFileCfg_some cfg h1 name now st hc
-    subst hst
-    exact name_roundtrip_v3 cfg codec crc bs name now hn ops
-  · intro codec crc bs hdr blocks nm rest ops hv hv2 hgb hfirst hne hP hW
-    exact name_roundtrip_v2_fallback cfg h2 codec crc bs hdr blocks nm rest ops hv hv2 hgb hfirst hne hP hW
-  · intro codec crc bs name now now' st ops hc hne hP hW
-    obtain ⟨hst, hn⟩ := createFileCfg_some cfg h1 name now st hc
-    subst hst
-    exact compacted_v3 cfg codec crc bs name now now' hn hne hP ops hW
-  · intro codec crc bs hdr blocks nm rest ops now' hv hv2 hgb hfirst hne hlen hP hW
-    exact compacted_v2 cfg codec crc bs hdr blocks nm rest ops now' hv hv2 hgb hfirst hne hlen hP hW
-  · intro codec crc bs name now st ops hc hne
-    obtain ⟨hst, hn⟩ := createFileCfg_some cfg h1 name now st hc
-    subst hst
-    exact scan_v3 cfg codec crc bs name now hn hne ops
-
-/-- `_partial`: for names shorter than 65536 bytes the V3 clauses hold whatever the facts are -/
-def HoldsPartial (cfg : Cfg) : Prop :=
-  ∀ (codec : Codec) (crc : Checksum) (bs : Nat) (name : Bytes) (now : Nat) (ops : List Op),
-    name.length < 2 ^ 16 →
-    readSwampName cfg codec.toDecoder crc (runOps cfg codec crc bs (createFile name now) ops).file = .ok name ∧
-    (name ≠ [] → scanListed cfg codec.toDecoder crc (runOps cfg codec crc bs (createFile name now) ops).file
-      = if splits3 name then some name else none)
-
-theorem holds_partial (cfg : Cfg) : HoldsPartial cfg :=
-  fun codec crc bs name now ops hn =>
-    ⟨name_roundtrip_v3 cfg codec crc bs name now hn ops, fun hne => scan_v3 cfg codec crc bs name now hn hne ops⟩
-
 /-- **listing_exact**: a directory whose files were each written by the engine under some name
     (non-empty, < 65536 bytes; any history, any number of files, duplicates allowed): the explorer's
     index contains exactly the names that have the three-part form — each once, nothing else. -/
@@ -211,6 +182,48 @@ theorem listing_exact (cfg : Cfg) (codec : Codec) (crc : Checksum) (bs : Nat) (d
     refine ⟨p.1, List.mem_map.mpr ⟨p, hp, rfl⟩, ?_⟩
     rw [hfile, scan_v3 cfg codec crc bs p.2 now hlen hne ops]
     simp [h3]
+
+def Good (cfg : Cfg) : Prop :=
+  cfg.rejectsLongName = true ∧ cfg.v2Fallback = true
+
+theorem holds_of_good (cfg : Cfg) (hg : Good cfg) : Holds cfg := by
+  obtain ⟨h1, h2⟩ := hg
+  refine ⟨?_, ?_, ?_, ?_, ?_, ?_⟩
+  · intro codec crc bs name now st ops hc
+    obtain ⟨hst, hn⟩ := createFileCfg_some cfg h1 name now st hc
+    subst hst
+    exact name_roundtrip_v3 cfg codec crc bs name now hn ops
+  · intro codec crc bs hdr blocks nm rest ops hv hv2 hgb hfirst hne hP hW
+    exact name_roundtrip_v2_fallback cfg h2 codec crc bs hdr blocks nm rest ops hv hv2 hgb hfirst hne hP hW
+  · intro codec crc bs name now now' st ops hc hne hP hW
+    obtain ⟨hst, hn⟩ := createFileCfg_some cfg h1 name now st hc
+    subst hst
+    exact compacted_v3 cfg codec crc bs name now now' hn hne hP ops hW
+  · intro codec crc bs hdr blocks nm rest ops now' hv hv2 hgb hfirst hne hlen hP hW
+    exact compacted_v2 cfg codec crc bs hdr blocks nm rest ops now' hv hv2 hgb hfirst hne hlen hP hW
+  · intro codec crc bs dir hw
+    apply listing_exact cfg codec crc bs dir
+    intro p hp
+    obtain ⟨hne, now, ops, st, hc, hf⟩ := hw p hp
+    obtain ⟨hst, hn⟩ := createFileCfg_some cfg h1 p.2 now st hc
+    subst hst
+    exact ⟨hne, hn, now, ops, hf⟩
+  · intro codec crc bs name now st ops hc hne
+    obtain ⟨hst, hn⟩ := createFileCfg_some cfg h1 name now st hc
+    subst hst
+    exact scan_v3 cfg codec crc bs name now hn hne ops
+
+/-- `_partial`: for names shorter than 65536 bytes the V3 clauses hold whatever the facts are -/
+def HoldsPartial (cfg : Cfg) : Prop :=
+  ∀ (codec : Codec) (crc : Checksum) (bs : Nat) (name : Bytes) (now : Nat) (ops : List Op),
+    name.length < 2 ^ 16 →
+    readSwampName cfg codec.toDecoder crc (runOps cfg codec crc bs (createFile name now) ops).file = .ok name ∧
+    (name ≠ [] → scanListed cfg codec.toDecoder crc (runOps cfg codec crc bs (createFile name now) ops).file
+      = if splits3 name then some name else none)
+
+theorem holds_partial (cfg : Cfg) : HoldsPartial cfg :=
+  fun codec crc bs name now ops hn =>
+    ⟨name_roundtrip_v3 cfg codec crc bs name now hn ops, fun hne => scan_v3 cfg codec crc bs name now hn hne ops⟩
 
 /-! non-vacuity -/
 example : Good goodCfg := ⟨rfl, rfl⟩
